@@ -17,6 +17,20 @@ NOT_APPLICABLE = {
 
 # property id -> dict(level, text, note, technique, design_ref, module)
 CLAIMED = {
+    "C17": dict(
+        level="exploration",
+        technique="deterministic simulation: seeded call histories over the memoised functions with a colliding argument pool, cache-capacity knob, mutator and file-modifier environment actors on a virtual clock; fresh-computation oracle",
+        design_ref="DESIGN.md section 4 (C17)",
+        text=("Seeded call histories (<=120 calls) over kde_histogram/kde_gauss/kde_multivariate, downsample_grid, hashfile, "
+              "LazyContourList and the cached scalar arrays of file datasets, hierarchy children and mapped-basin proxies use an "
+              "argument pool built to collide (same bytes with other dtype or length, strided vs contiguous, positional vs keyword) "
+              "with the cache capacity and the contour list length as per-run knobs so that eviction and recall happen; a mutator "
+              "actor writes into returned arrays and a file-modifier actor edits hashed files and stamps their mtimes from the "
+              "virtual clock. Every result must equal the same call executed with the process-global cache swapped out; dataset "
+              "reads must equal the generator's data; hashfile must equal an independent md5 of the current file content."),
+        note=("Sampling. Edits that change neither size nor mtime of a hashed file are outside the environment model (cache keyed on "
+              "both by design). Thread safety of the caches is not examined (no property quantifies over caller threads)."),
+    ),
     "C06": dict(
         level="exploration",
         technique="deterministic simulation: seeded histories of configuration edits, temporary-feature assignments, reads and availability tests on a long-lived dataset vs. a freshly constructed one; independent emodulus precedence table",
@@ -114,7 +128,7 @@ CLAIMED = {
 
 # properties whose checks are still under construction (kept in not_applicable with that
 # reason until the check exists, so that MANIFEST.json is valid and honest at every commit)
-PENDING = ["C02", "C07", "C08", "C09", "C10", "C13", "C14", "C17"]
+PENDING = ["C02", "C07", "C08", "C09", "C10", "C13", "C14"]
 for _p in PENDING:
     if _p not in CLAIMED:
         NOT_APPLICABLE[_p] = "not claimed yet: check under construction (designed in DESIGN.md section 4; will be claimed once its machinery is committed)"
